@@ -2,6 +2,8 @@ import SpVerif.Lemmas.DaskFacts
 import SpVerif.Model.Join
 import SpVerif.Props.C13
 import Mathlib.Data.List.Induction
+import SpVerif.Props.C06
+import SpVerif.Props.C05
 /-!
 # C17 — missing and empty geometries are inert
 
@@ -95,5 +97,26 @@ theorem C17_sjoin_inert_right (left : List (Option Pt)) (right : List (Option El
   obtain ⟨j', _, i', ⟨_, hh⟩, rfl, rfl⟩ := hp
   rw [hj] at hh
   cases h : left.getD i' none <;> simp [h, hit] at hh
+
+/-- the same in the Dask join: no row of the Dask left / inner join pairs an inert right row with anything, whatever the partitioning
+and the candidate pruning (Dask join = pandas join of the concatenation, C06) -/
+theorem C17_dask_sjoin_inert_right (parts : List (List (Option Pt))) (right : List (Option Elem))
+    (hw : ∀ e, some e ∈ right → Join.WFElem e) (i j : Nat) (hj : right.getD j none = none) :
+    (some i, some j) ∉ DaskJoin.daskJoin .left right (DaskJoin.keepOverlap right) 0 parts ∧
+    (some i, some j) ∉ DaskJoin.daskJoin .inner right (DaskJoin.keepOverlap right) 0 parts := by
+  constructor
+  · rw [C06_sjoin_left parts right hw]
+    intro hm
+    rcases (C05_left parts.flatten right (some i, some j)).mp hm with ⟨i', j', hp, he⟩ | ⟨_, _, _, he⟩
+    · simp only [Prod.mk.injEq, Option.some.injEq] at he
+      obtain ⟨rfl, rfl⟩ := he
+      exact C17_sjoin_inert_right parts.flatten right i j hj hp
+    · simp at he
+  · intro hm
+    have hp := (C06_sjoin_inner parts right hw).mem_iff.mp hm
+    unfold Join.join at hp
+    simp only [List.mem_map, Prod.mk.injEq, Option.some.injEq] at hp
+    obtain ⟨⟨i', j'⟩, hmem, rfl, rfl⟩ := hp
+    exact C17_sjoin_inert_right parts.flatten right i' j' hj hmem
 
 end SpVerif
